@@ -102,9 +102,28 @@ const READERS: &[&str] = &["=A9:A10*2", "=B8:C9&\"\"", "=E9:E10+1", "=SUM(A8:C10
 /// reach each other; they read the grid, and formulas further down (rows 16+) read the spills.
 /// Two arrays competing for the same cells, and cycles closed through a spill, are left out:
 /// which of two colliding arrays wins is a matter of history in every spreadsheet.
+fn has_whole_line_range(t: &str) -> bool {
+    let chars: Vec<char> = t.chars().collect();
+    for (i, ch) in chars.iter().enumerate() {
+        if *ch != ':' {
+            continue;
+        }
+        let left: String = chars[..i].iter().rev().take_while(|c| c.is_ascii_alphanumeric() || **c == '$').collect();
+        let right: String = chars[i + 1..].iter().take_while(|c| c.is_ascii_alphanumeric() || **c == '$').collect();
+        let letters = |s: &str| !s.is_empty() && s.chars().all(|c| c.is_ascii_alphabetic() || c == '$');
+        let digits = |s: &str| !s.is_empty() && s.chars().all(|c| c.is_ascii_digit() || c == '$');
+        if (letters(&left) && letters(&right)) || (digits(&left) && digits(&right)) {
+            return true;
+        }
+    }
+    false
+}
+
 fn gen(rng: &mut rand::rngs::StdRng, nsheets: u32, arrays: bool) -> Cells {
     let mut cells = gen_acyclic(rng, nsheets);
     if arrays {
+        // whole-column / whole-row ranges would reach down into the array blocks and close cycles
+        cells.retain(|x| !has_whole_line_range(&x.3));
         for (r, c) in [(8, 1), (8, 5), (12, 1)] {
             if rng.gen_bool(0.7) {
                 cells.push((0, r, c, (*pick(rng, ARRAYS)).to_string()));
@@ -128,6 +147,20 @@ fn gen(rng: &mut rand::rngs::StdRng, nsheets: u32, arrays: bool) -> Cells {
         cells.shuffle(rng);
     }
     cells
+}
+
+/// where the dynamic arrays of a (shrunk) witness sit: the generator only puts them below
+/// the grid of plain inputs; arrays inside the grid can close cycles through their spills
+fn layout(cells: &Cells) -> &'static str {
+    let is_array = |t: &str| t.contains('#') || t.contains("SEQUENCE") || t.contains("TRANSPOSE") || (t.contains(':') && !t[1..].chars().next().map(|c| c.is_ascii_alphabetic() && t.contains('(')).unwrap_or(false) && !t.contains("SUM(") && !t.contains("COUNT(") && !t.contains("CONCAT("));
+    let arrays: Vec<&(u32, i32, i32, String)> = cells.iter().filter(|x| x.3.starts_with('=') && is_array(&x.3)).collect();
+    if arrays.is_empty() {
+        "scalar"
+    } else if arrays.iter().any(|x| x.1 <= 6) {
+        "arrays-in-grid"
+    } else {
+        "arrays-below-grid"
+    }
 }
 
 fn run(ctx: &Ctx) -> Stats {
@@ -165,8 +198,7 @@ fn run(ctx: &Ctx) -> Stats {
             }
             let mut scratch = Stats::default();
             let detail = check(nsheets, &small, &p, &mut scratch).map(|x| x.1).unwrap_or(detail);
-            let has_arrays = small.iter().any(|x| x.3.contains('#') || x.3.contains("SEQUENCE") || x.3.contains("TRANSPOSE") || (x.3.contains(':') && !x.3.contains('(')));
-            ctx.report(st, "route-differs", format!("route-differs|{route}|{}", if has_arrays { "arrays" } else { "scalar" }), detail, json!({"nsheets": nsheets, "cells": small, "perm": p}));
+            ctx.report(st, "route-differs", format!("route-differs|{route}|{}", layout(&small)), detail, json!({"nsheets": nsheets, "cells": small, "perm": p}));
         }
     })
 }
@@ -178,8 +210,7 @@ fn replay(_ctx: &Ctx, case: &Value) -> Vec<Violation> {
     let mut st = Stats::default();
     match check(nsheets, &cells, &perm, &mut st) {
         Some((route, detail)) => {
-            let has_arrays = cells.iter().any(|x| x.3.contains('#') || x.3.contains("SEQUENCE") || x.3.contains("TRANSPOSE") || (x.3.contains(':') && !x.3.contains('(')));
-            vec![Violation { check: "route-differs".into(), sig: format!("route-differs|{route}|{}", if has_arrays { "arrays" } else { "scalar" }), detail, case: case.clone() }]
+            vec![Violation { check: "route-differs".into(), sig: format!("route-differs|{route}|{}", layout(&cells)), detail, case: case.clone() }]
         }
         None => vec![],
     }
